@@ -17,6 +17,7 @@ MultRegion(x, f) ==
          m  == IF CmpD(R, R2) <= 0 THEN R ELSE R2
      IN \/ (R # <<>> /\ CmpD(m \o Zeros(8), X) < 0)
         \/ CmpD(X, F \o Zeros(15)) >= 0
+        \/ (R = <<>> /\ (x.f > 0 \/ f.f > 0))              \* a true multiple with fractional operands: the float quotient may land just BELOW an integer, which the tolerance does not forgive
 
 Explain(ev) ==
   IF "BoundOutsideDeclaredFormat" \in OpenDevs /\ Expected({}, ev) # Expected({"BoundOutsideDeclaredFormat"}, ev) /\ Expected({"BoundOutsideDeclaredFormat"}, ev) = ev.out THEN "BoundOutsideDeclaredFormat"
